@@ -1600,6 +1600,58 @@ func Harness_C05_ranges() {
 	VerifCover("done")
 }
 
+// Harness_C05_limits: whatever limits a transaction declares, the list never names a table with an empty (inverted) update-index range or a range at or below its predecessor's; a refused transaction changes nothing and the next ordinary transaction still commits.
+// bounds: sequential; stack of 1 table ([1,1]); one Add whose writer declares limits [lo, hi] with lo, hi in 0..4 independently (inverted ranges included) and holds a ref (update index lo, only when lo <= hi), a reflog entry (update index lo or hi), or both; then an ordinary Add; list-integrity monitor (existence, completeness, increasing and non-empty ranges) after every step; the directory must open afterwards
+// covers: accepted, refused
+func Harness_C05_limits() {
+	cfg := stackCfg(0)
+	dir := VerifTempDir()
+	VerifMonitor("list")
+	seedStack(dir, cfg, 1)
+	st := mustOpen(dir, cfg, "open")
+	if st == nil {
+		return
+	}
+	lo, hi := uint64(VerifChoose(5)), uint64(VerifChoose(5))
+	what := VerifChoose(3) // 0 ref, 1 log, 2 both
+	if what != 1 && lo > hi {
+		return // the writer refuses every ref for such limits: nothing to submit
+	}
+	logIdx := lo
+	if VerifChoose(2) == 1 {
+		logIdx = hi
+	}
+	err := st.Add(func(w *Writer) error {
+		w.SetLimits(lo, hi)
+		if what != 1 {
+			if err := w.AddRef(&RefRecord{RefName: "x", UpdateIndex: lo, Value: hashWith(20, 5, 5)}); err != nil {
+				return err
+			}
+		}
+		if what != 0 {
+			return w.AddLog(&LogRecord{RefName: "x", UpdateIndex: logIdx, Time: 7, New: hashWith(20, 5, 5), Old: hashWith(20, 0, 0), Message: "m\n"})
+		}
+		return nil
+	})
+	if lo >= 2 && lo <= hi {
+		VerifAssert(err == nil, "ordered-table-refused")
+		VerifCover("accepted")
+	} else {
+		VerifAssert(err != nil, "table-with-bad-range-accepted")
+		VerifCover("refused")
+	}
+	VerifAssert(addTxn(st, 6, true) == nil, "next-add")
+	fin, ferr := NewStack(dir, cfg)
+	VerifAssert(ferr == nil, "final-open")
+	if ferr != nil {
+		return
+	}
+	s := snapshot(fin, "final")
+	_, hasX := s.refs["x"]
+	VerifAssert(hasX == (err == nil && what != 1), "refused-transaction-left-an-effect")
+	VerifAssert(s.refs["p6"] == 6, "next-transaction-missing")
+}
+
 // Harness_C09_prepared: a transaction prepared (limits chosen) before the handle went stale is refused again after the refresh instead of committing below a committed index.
 // bounds: sequential: H1 prepares limits [lo, lo+d] (d in 0..1) from its view of a 2-table stack; another handle adds 1..2 tables; H1 submits the prepared transaction twice
 // covers: done
